@@ -28,7 +28,7 @@ theorem replayTxs_view (e : Env) (prop : String) (l : List Nat) (s : St) :
   | cons i rest ih => rw [replayTxs_cons, ih, blockStep_view, runV_cons]
 
 /-- a successful forward run of a block is a run of admitted transactions -/
-theorem applyBlockTxs_run (e : Env) (lh : Int) (prop : String) (l : List Nat) (s s2 : St)
+theorem applyBlockTxs_runV (e : Env) (lh : Int) (prop : String) (l : List Nat) (s s2 : St)
     (h : applyBlockTxs e lh prop [] l s = some (s2, .ok)) : RunV e l (curVer s) := by
   induction l generalizing s with
   | nil => trivial
@@ -72,7 +72,7 @@ theorem chainValid_run (e : Env) (l : List Nat) (g : St) (h : XV.C01.ChainValid 
     obtain ⟨hb, hrest⟩ := h
     obtain ⟨lh, s2, hfwd⟩ := hb.fwd
     rw [chainTxs_cons]
-    refine (RunV_append e _ _ _).mpr ⟨applyBlockTxs_run e lh _ _ g s2 hfwd, ?_⟩
+    refine (RunV_append e _ _ _).mpr ⟨applyBlockTxs_runV e lh _ _ g s2 hfwd, ?_⟩
     rw [← replayBlock_view]
     exact ih _ hrest
 
@@ -107,7 +107,7 @@ inductive Extends (e : Env) : St → List Block → St → Prop
 theorem todoBlock_run (e : Env) (s s' : St) (lh : Int) (b : Block) (h : todoBlock e s lh b = some s') :
     RunV e b.txs (curVer s) ∧ curVer s' = runV e b.txs (curVer s) ∧ s'.pool = s.pool := by
   obtain ⟨h1, s2, h2⟩ := todoBlock_eq e s s' lh b h
-  refine ⟨applyBlockTxs_run e lh b.prop b.txs s s2 h2, ?_, ?_⟩
+  refine ⟨applyBlockTxs_runV e lh b.prop b.txs s s2 h2, ?_, ?_⟩
   · rw [h1, replayBlock_view]
   · rw [h1]; exact (replayTxs_frame e b.prop b.txs s).2.2
 
